@@ -36,6 +36,7 @@ CHEAT_PATTERNS = [r"\bassume\s*\(", r"\badmit\s*\(", r"external_body", r"assume_
 class UnitResult:
     def __init__(self, name):
         self.name = name
+        self.structural = []
         self.status = "ok"          # ok | failed | inconclusive
         self.reason = None
         self.failures = []          # dicts: kind, fn, labels, clause, message, rendered, line
@@ -90,6 +91,10 @@ def run_unit(name, repo=None, seed=None, rlimit=60, extra_tag="", canary=False, 
     r.path = path
     r.scan = scan_cheats(text, meta)
     r.obligations = collect_obligations(meta)
+    # structural obligations (decided by the extractor, not by Verus)
+    r.structural = info.get("structural", [])
+    for so in r.structural:
+        r.obligations.append({"labels": so["labels"], "kind": "structural", "fn": so["item"], "clause": so["clause"], "line": 0})
     # trusted functions' ensures are assumptions, not obligations
     trusted_fns = {f["fn"] for f in info["functions"] if f["mode"] != "verify"}
     for o in r.obligations:
@@ -179,6 +184,11 @@ def run_unit(name, repo=None, seed=None, rlimit=60, extra_tag="", canary=False, 
                     fail["labels"] = m["labels"]
                     fail["clause"] = m.get("clause")
                     fail["callee"] = m.get("fn")
+                elif m and (m.get("shim") or m.get("spec_text")) or (m is None):
+                    # the failed precondition belongs to a lemma / proof function of the vocabulary: a failed proof
+                    # step inside this function (everything after it was proved ASSUMING the lemma's conclusion)
+                    fail["kind"] = "assertion"
+                    fail["callee"] = "lemma (proof step)"
             else:
                 fail["callee"] = "std/vstd function (panic-freedom precondition)"
         elif kind == "invariant":
@@ -217,6 +227,11 @@ def run_unit(name, repo=None, seed=None, rlimit=60, extra_tag="", canary=False, 
         return r
     if r.status == "inconclusive":
         return r
+    for so in getattr(r, "structural", []):
+        if not so["ok"]:
+            r.failures.append({"kind": "structural", "message": "override set changed: have %s, want %s" % (so["have"], so["want"]),
+                               "rendered": "structural obligation failed for %s: have %s, want %s" % (so["item"], so["have"], so["want"]),
+                               "labels": so["labels"], "clause": so["clause"], "fn": so["item"], "line": 0, "needs_witness": True})
     if r.failures:
         r.status = "failed"
     elif not vr.get("success"):
